@@ -413,6 +413,12 @@ func replayMain(t *testing.T, h Harness) {
 		fmt.Fprintf(os.Stderr, "replay: New must return a pointer\n")
 		os.Exit(2)
 	}
+	// The case is executed twice and the second execution is reported: the first
+	// one warms up lazily initialised process state (type caches, sync.Once
+	// initialisers, ...), whose allocations would otherwise consume values of the
+	// seeded runtime stream inside the bubble and shift later choices relative to
+	// the (warm) worker process that found the failure.
+	_ = h.Run(t, c, false)
 	res := h.Run(t, c, true)
 	v := resultViolation(res, false)
 	fp := fmt.Sprintf("%016x", res.Fingerprint)
